@@ -512,7 +512,8 @@ class RawFileSystem(FileSystem[str]):
 
     def _resolve_path(self, path: str) -> str:
         """Get the absolute path."""
-        abs_path = os.path.abspath(os.path.join(self.path, path))
+        # Both slashes are separators here (as in the other filesystems), also on POSIX.
+        abs_path = os.path.abspath(os.path.join(self.path, path.replace('\\', '/')))
         # Compare whole components: "/a/root_evil" must not count as being inside "/a/root".
         if self.constrain_path and abs_path != self.path and not abs_path.startswith(os.path.join(self.path, '')):
             raise RootEscapeError(self.path, path)
